@@ -359,6 +359,22 @@ instance (self : α) (holders : List α) (t : Nat) (e : Err α) (k : Class α) (
           exact decidable_of_iff (∀ c ∈ cs, c ∈ holders ∧ c ∉ culprits k) (by simp)
       cases o.start <;> infer_instance
 
+/-- the time-outs `NewCoordinator` sets, in nanoseconds: InitiatePeriod 15 s, CoordinatorTimeout 3 min, TssTimeout 15 min -/
+structure Timeouts where
+  initiate : Nat
+  coord    : Nat
+  tss      : Nat
+deriving DecidableEq, Repr
+
+def defaultTimeouts : Timeouts := ⟨15 * 1000000000, 180 * 1000000000, 900 * 1000000000⟩
+
+/-- what the classification of an unresponsive coordinator needs of ANY configuration: the coordinator re-broadcasts
+    its initiate message well within the others' patience, and an unresponsive coordinator is noticed (typed
+    CoordinatorError, retried) before the attempt's watchdog ends the session with its untyped time-out error -/
+def TimeoutsOk (t : Timeouts) : Prop := 0 < t.initiate ∧ t.initiate < t.coord ∧ t.coord < t.tss
+
+instance (t : Timeouts) : Decidable (TimeoutsOk t) := by unfold TimeoutsOk; infer_instance
+
 /-! ### the code as found (before the repair), kept to state the defect -/
 
 /-- the type switch of the as-found `handleError`: only the outermost value is looked at -/
